@@ -489,6 +489,9 @@ func judge(cs *Case, r *RunResult) []verdict {
 		ya, ga, sa := fam.Pure([]float64{a})
 		const c1, c2 = 1e-4, 0.9
 		tol := 1e-12 * (1 + s0 + sa + math.Abs(y0) + math.Abs(ya))
+		if fam.VSc != nil { // rounding scale of the value itself (large steps along a polynomial ray)
+			tol += 1e-12 * (fam.VSc([]float64{0}) + fam.VSc([]float64{a}))
+		}
 		if !(ya <= y0+c1*a*g0[0]+tol) {
 			addv("wolfe-sufficient-decrease", fmt.Sprintf("line search reported success with alpha=%g but phi(alpha)=%g > phi(0)+c1*alpha*phi'(0)=%g", a, ya, y0+c1*a*g0[0]))
 		}
